@@ -25,7 +25,13 @@ ExtendH == /\ mode = "hist" /\ Len(rec) < MaxH
            /\ \E p \in 1..2, m \in HMasks, o \in BOOLEAN : rec' = Append(rec, [p |-> p, mask |-> m, own |-> o])
            /\ UNCHANGED mode
 
-Init == rec = <<>> /\ mode \in {"fields", "rules", "hist"}
+\* signal histories: records of one profile to one peer; Signal.Merge has two alternative criteria (same
+\* access or same set), so what three records merge into depends on the chain they form
+ExtendS == /\ mode = "sighist" /\ Len(rec) < MaxH
+           /\ \E a \in {"send", "receive"}, sg \in {"hup", "term", "int"} : rec' = Append(rec, [acc |-> a, sig |-> sg])
+           /\ UNCHANGED mode
+
+Init == rec = <<>> /\ mode \in {"fields", "rules", "hist", "sighist"}
 ExtendF == /\ mode = "fields" /\ Len(rec) < MaxF
            /\ \E f \in Fields : (\A i \in DOMAIN rec : rec[i].k # f.k) /\ rec' = Append(rec, f)
            /\ UNCHANGED mode
@@ -33,8 +39,9 @@ PickR == /\ mode = "rules" /\ rec = <<>>
          /\ \E c \in RClass, m \in Masks, v \in Verdicts, own \in BOOLEAN, n \in 1..27 :
                rec' = <<[cls |-> c, mask |-> m, verdict |-> v, own |-> own, nameclass |-> n]>>
          /\ mode' = "ruledone"
-Spec == Init /\ [][ExtendF \/ PickR \/ ExtendH]_<<rec, mode>>
+Spec == Init /\ [][ExtendF \/ PickR \/ ExtendH \/ ExtendS]_<<rec, mode>>
 Emit == /\ (mode = "fields" /\ rec # <<>> => PrintT("BEHF " \o ToJson(rec)))
         /\ (mode = "ruledone" => PrintT("BEHR " \o ToJson(rec[1])))
         /\ (mode = "hist" /\ Len(rec) >= 2 => PrintT("BEHH " \o ToJson(rec)))
+        /\ (mode = "sighist" /\ Len(rec) >= 2 => PrintT("BEHS " \o ToJson(rec)))
 =============================================================================
